@@ -2076,7 +2076,7 @@ func NegateVal(operand Value) Value {
 	if operand.IsReference() {
 		switch o := operand.AsReference().(type) {
 		case *BigInt:
-			return Ref(o.Negate())
+			return o.Negate().Normalize()
 		case *BigFloat:
 			return Ref(o.Negate())
 		case Float64:
@@ -2138,7 +2138,7 @@ func NegateVal(operand Value) Value {
 func NegateInt(val Value) Value {
 	if val.IsReference() {
 		l := (*BigInt)(val.Pointer())
-		return Ref(l.Negate())
+		return l.Negate().Normalize()
 	}
 
 	l := val.AsSmallInt()
@@ -2152,7 +2152,7 @@ func IncrementVal(operand Value) Value {
 	if operand.IsReference() {
 		switch o := operand.AsReference().(type) {
 		case *BigInt:
-			return Ref(o.Increment())
+			return o.Increment().Normalize()
 		case Int64:
 			return (o + 1).ToValue()
 		case UInt64:
@@ -2204,7 +2204,7 @@ func IncrementVal(operand Value) Value {
 func IncrementInt(val Value) Value {
 	if val.IsReference() {
 		l := (*BigInt)(val.Pointer())
-		return l.Increment().ToValue()
+		return l.Increment().Normalize()
 	}
 
 	l := val.AsSmallInt()
